@@ -824,6 +824,10 @@ def run(ctx):
     reqs, pending = [], []
     stream_flags(ctx, reqs, pending)
     stream_pipeline(ctx, reqs, pending)
+    stream_lut(ctx, reqs, pending)
+    stream_palette(ctx, reqs, pending)
+    stream_selectors(ctx, reqs, pending)
+    stream_placement(ctx, reqs, pending)
     settle(ctx, reqs, pending)
 
 
@@ -1065,3 +1069,364 @@ def compare_model(ctx, case, ans, res, ref, info_exact, dtype):
         if not same:
             ctx.disagree('L0', case, got, [str(out_value(o['ok'])) for o in folded], 'folded model differs from the implementation')
             return
+
+
+# ---------------------------------------------------------------------------- LUT objects
+LUT_LENGTHS = [1, 2, 3, 4, 5, 7, 8, 15, 16, 255, 256, 257]
+
+
+def stream_lut(ctx, reqs, pending):
+    import highdicom as hd
+    import pydicom
+    from pydicom.dataset import Dataset
+    from pydicom.sequence import Sequence
+    from gen.images import base_dataset, to_bytes, MF_SC_WORD
+    from pydicom.uid import ExplicitVRLittleEndian
+    n_cases = ctx.n(120, 1500)
+    big_every = 40 if ctx.tier == 'quick' else 25
+    for idx in range(n_cases):
+        r = ctx.rng('lut', idx)
+        bits = r.choice([8, 16])
+        if idx % big_every == 0:
+            n = r.choice([65535, 65536, 65536, 65537])
+        else:
+            n = r.choice(LUT_LENGTHS) if r.random() < 0.8 else r.randint(1, 700)
+        first = r.choice([0, 0, 1, 5, 255, 256, 1000, 65535]) if r.random() < 0.85 else r.choice([-1, -7, 65536, 70000])
+        nr = ctx.np_rng('lut', idx)
+        data = nr.integers(0, 2 ** bits, size=n, dtype=np.int64)
+        if r.random() < 0.08:
+            data = data[:0]
+        dt = np.uint8 if bits == 8 else np.uint16
+        if r.random() < 0.05:
+            dt = np.int16 if bits == 16 else np.int8           # refused dtype
+        cls = r.choice(['LUT', 'LUT', 'VOILUT', 'ModalityLUT'])
+        case = {'stream': 'lut', 'idx': idx, 'cls': cls, 'bits': bits, 'n': int(n), 'first': first, 'dtype': np.dtype(dt).name}
+        arr = data.astype(dt)
+        if cls == 'LUT':
+            res = call(hd.LUT, first, arr)
+        elif cls == 'VOILUT':
+            res = call(hd.VOILUT, first, arr)
+        else:
+            res = call(hd.ModalityLUT, 'US', first, arr)
+        valid = 0 <= first < 65536 and 1 <= len(arr) <= 65536 and dt in (np.uint8, np.uint16)
+        ctx.case(nontrivial_key=('lut', cls, bits, int(n), first) if valid else None, lut_len=('65536' if n == 65536 else 'odd' if n % 2 else 'even'),
+                 lut_bits=bits, lut_outcome=res[0] if res[0] == 'ok' else res[1], lut_class=cls)
+        # ---- oracle: construction is refused exactly for what the descriptor cannot express
+        if valid != (res[0] == 'ok'):
+            ctx.fail(case, {'why': 'LUT construction ' + ('refused' if valid else 'accepted') + ' unexpectedly', 'res': str(res[1:])[:200]},
+                     site='LUT.__init__')
+            continue
+        # ---- model: constructor outcome and the standard-mandated encoding (L1)
+        mbits = (8 if dt == np.uint8 else 16 if dt == np.uint16 else 7)
+        reqs.append(('lutInit', {'first': first, 'bits': mbits, 'data': [int(x) for x in data[:0 if not valid else None]] if valid else
+                                 [int(x) % (2 ** bits) for x in data]}))
+        if res[0] == 'ok':
+            lut = res[1]
+            pending.append((dict(case, layer='L1', what='LUTDescriptor / LUTData encoding'),
+                            {'data': list(lut.LUTData), 'descriptor': [int(x) for x in lut.LUTDescriptor]}))
+        else:
+            pending.append((dict(case, what='LUT constructor refusal'), 'err'))
+        if res[0] != 'ok':
+            continue
+        # ---- oracle: accessors return what was given
+        for label, obj in (('memory', lut), ('file', None)):
+            if obj is None:
+                # through a file: the item sits in a sequence of an image-like dataset
+                ds = base_dataset(MF_SC_WORD, ExplicitVRLittleEndian)
+                seq_kw = 'ModalityLUTSequence' if cls == 'ModalityLUT' else 'VOILUTSequence'
+                setattr(ds, seq_kw, Sequence([lut]))
+                st = call(lambda: pydicom.dcmread(io.BytesIO(to_bytes(ds))))
+                if st[0] != 'ok':
+                    ctx.note(f'could not write LUT {idx}: {st[2]}')
+                    continue
+                item = getattr(st[1], seq_kw)[0]
+                vr = item['LUTData'].VR
+                before = list(item.LUTData) if vr == 'OW' else None
+                ctx.hist('lut_file_vr', vr)
+                st2 = call(hd.LUT.from_dataset, item)
+                if st2[0] != 'ok':
+                    ctx.fail(case, {'why': 'from_dataset refused a LUT item read from file', 'err': st2[2]}, site='LUT.from_dataset')
+                    continue
+                obj = st2[1]
+                if obj is item:
+                    ctx.fail(case, {'why': 'from_dataset(copy=True) returned its argument'}, site='LUT.from_dataset/copy')
+                if before is not None:
+                    reqs.append(('lutAccess', {'descriptor': [int(x) for x in item.LUTDescriptor], 'data': before, 'pad': False}))
+                    pending.append((dict(case, what='accessors on the item read from file'),
+                                    {'data': [int(x) for x in data], 'first': first, 'n': int(n)}))
+            got = call(lambda: (obj.lut_data, obj.first_mapped_value, obj.number_of_entries, obj.bits_per_entry))
+            ctx.case(lut_access=label)
+            if got[0] != 'ok':
+                ctx.fail(case, {'why': f'accessors raised ({label})', 'err': got[2]}, site='LUT.lut_data')
+                continue
+            d, f0, n0, b0 = got[1]
+            if not (np.array_equal(d, arr) and d.dtype == arr.dtype and f0 == first and n0 == n and b0 == bits):
+                ctx.fail(case, {'why': f'accessors do not return the table given ({label})', 'first': f0, 'n': n0, 'bits': b0,
+                                'data_equal': bool(np.array_equal(d, arr))}, site='LUT.lut_data')
+        # ---- apply: below / above / inside
+        probes = sorted({first - 3, first - 1, first, first + 1, first + n // 2, first + n - 2, first + n - 1, first + n, first + n + 5,
+                         0, 65535} | {int(x) for x in nr.integers(0, 65536, size=4)})
+        for adt in ('uint16', 'int32', 'uint8', 'int16'):
+            ii = np.iinfo(adt)
+            xs = [x for x in probes if ii.min <= x <= ii.max]
+            if not xs:
+                continue
+            a = np.array(xs, dtype=adt)
+            got = call(lut.apply, a)
+            want = arr[np.clip(np.array(xs, dtype=np.int64) - first, 0, n - 1)]
+            ctx.case(lut_apply=adt)
+            c2 = dict(case, xs=xs, array_dtype=adt)
+            if got[0] != 'ok':
+                ctx.fail(c2, {'why': 'LUT.apply raised', 'err': got[2]}, site='LUT.apply')
+            elif not np.array_equal(got[1], want):
+                ctx.fail(c2, {'why': 'LUT.apply: below/above the table must give the first/last entry', 'got': got[1].tolist(),
+                              'want': want.tolist()}, site='LUT.apply')
+            if n <= 700 and adt == 'int32':
+                reqs.append(('applyLut', {'table': [int(x) for x in arr], 'first': first, 'clip': True, 'xs': xs}))
+                pending.append((dict(case, what='apply_lut', xs=xs),
+                                [{'ok': int(v)} for v in got[1]] if got[0] == 'ok' else 'err'))
+        # ---- scaled / inverted tables
+        if n <= 700 and arr.min() != arr.max():
+            lo, hi = Fraction(r.randint(-8, 8), 2), None
+            hi = lo + Fraction(r.choice([1, 2, 3, 5, 8]))
+            for inv in (False, True):
+                got = call(lut.get_scaled_lut_data, (float(lo), float(hi)), np.float64, inv)
+                mn, mx = int(arr.min()), int(arr.max())
+                want = [(Fraction(int(v)) - mn) / (mx - mn) * (hi - lo) + lo for v in arr]
+                if inv:
+                    want = [hi + lo - y for y in want]
+                ctx.case(lut_scaled=inv)
+                if got[0] != 'ok' or any(abs(float(g) - float(w)) > 2.0 ** -40 * (1 + abs(float(w))) for g, w in zip(got[1].tolist(), want)):
+                    ctx.fail(dict(case, invert=inv), {'why': 'get_scaled_lut_data differs from (v - min) / (max - min) * range + lo',
+                                                      'got': str(got[1])[:200]}, site='LUT.get_scaled_lut_data')
+            got = call(lut.get_inverted_lut_data)
+            want = (int(arr.min()) + int(arr.max()) - arr.astype(np.int64))
+            if got[0] != 'ok' or not np.array_equal(got[1].astype(np.int64), want) or got[1].dtype != arr.dtype:
+                ctx.fail(case, {'why': 'get_inverted_lut_data differs from min + max - v', 'got': str(got[1])[:200]},
+                         site='LUT.get_inverted_lut_data')
+
+
+def stream_palette(ctx, reqs, pending):
+    """PaletteColorLUT / PaletteColorLUTTransformation objects and pydicom's apply_color_lut as second opinion"""
+    import highdicom as hd
+    from pydicom.pixels.processing import apply_color_lut
+    from gen.pixeltransforms import make_image
+    for idx in range(ctx.n(60, 600)):
+        r = ctx.rng('pal', idx)
+        nr = ctx.np_rng('pal', idx)
+        bits = r.choice([8, 16])
+        n = r.choice([1, 2, 3, 4, 5, 8, 9, 16, 255, 256]) if bits == 8 else r.choice([1, 2, 3, 7, 8, 256, 257, 1000])
+        if idx % 50 == 7:
+            bits, n = 16, 65536
+        first = r.choice([0, 0, 1, 3, 17, 200])
+        table = nr.integers(0, 2 ** bits, size=(n, 3), dtype=np.int64).astype(np.uint8 if bits == 8 else np.uint16)
+        case = {'stream': 'palette', 'idx': idx, 'bits': bits, 'n': n, 'first': first}
+        res = call(hd.PaletteColorLUTTransformation.from_combined_lut, table, first)
+        valid = first < 2 ** bits
+        ctx.case(nontrivial_key=('pal', bits, n, first), palette_len=('65536' if n == 65536 else 'odd' if n % 2 else 'even'), palette_bits=bits)
+        if (res[0] == 'ok') != valid:
+            ctx.fail(case, {'why': 'palette construction outcome', 'res': str(res[1:])[:200]}, site='PaletteColorLUTTransformation')
+            continue
+        if res[0] != 'ok':
+            continue
+        tr = res[1]
+        got = call(lambda: (tr.combined_lut_data, tr.first_mapped_value, tr.number_of_entries, tr.bits_per_entry,
+                            tr.red_lut.lut_data, tr.green_lut.lut_data, tr.blue_lut.lut_data))
+        if got[0] != 'ok':
+            ctx.fail(case, {'why': 'palette accessors raised', 'err': got[2]}, site='PaletteColorLUTTransformation/accessors')
+            continue
+        comb, f0, n0, b0, rr, gg, bb = got[1]
+        if not (np.array_equal(comb, table) and f0 == first and n0 == n and b0 == bits and np.array_equal(rr, table[:, 0])
+                and np.array_equal(gg, table[:, 1]) and np.array_equal(bb, table[:, 2])):
+            ctx.fail(case, {'why': 'palette accessors do not return the tables given'}, site='PaletteColorLUTTransformation/accessors')
+        xs = sorted(x for x in {max(0, first - 2), first, first + n // 2, first + n - 1, first + n, first + n + 9} if x <= 65535)
+        a = np.array(xs, dtype=np.uint16).reshape(1, -1)
+        got = call(tr.apply, a)
+        want = table[np.clip(np.array(xs) - first, 0, n - 1)].reshape(1, -1, 3)
+        if got[0] != 'ok' or not np.array_equal(got[1], want):
+            ctx.fail(dict(case, xs=xs), {'why': 'palette apply: below/above -> first/last entry', 'got': str(got[1:])[:300]},
+                     site='PaletteColorLUTTransformation.apply')
+        # extracted from a dataset again (attributes as in an image)
+        P = {'bits': 16, 'photometric': 'PALETTE COLOR', 'frames': [[xs]],
+             'T': {'palette': {'first': first, 'bits': bits, 'data': table.tolist()}}}
+        ds = make_image(P)
+        ex = call(hd.PaletteColorLUTTransformation.extract_from_dataset, ds)
+        if ex[0] != 'ok':
+            ctx.fail(case, {'why': 'extract_from_dataset refused image palette attributes', 'err': ex[2]},
+                     site='PaletteColorLUTTransformation.extract_from_dataset')
+        else:
+            got = call(lambda: ex[1].combined_lut_data)
+            if got[0] != 'ok' or not np.array_equal(got[1], table):
+                ctx.fail(case, {'why': 'combined_lut_data of the extracted transformation does not return the table', 'res': str(got[1:])[:200]},
+                         site='PaletteColorLUTTransformation.extract_from_dataset')
+        # second opinion
+        if n < 65536 or bits == 16:
+            so = call(apply_color_lut, a.astype(np.uint16), ds)
+            if so[0] == 'ok' and bits == 16 and not np.array_equal(so[1], want):
+                ctx.note(f'pydicom apply_color_lut differs from the reference on palette case {idx}')
+
+
+# ---------------------------------------------------------------------------- selectors
+def stream_selectors(ctx, reqs, pending):
+    import highdicom as hd
+    from highdicom import pixels as hp
+    from pydicom.dataset import Dataset
+    from pydicom.sequence import Sequence
+    from pydicom.sr.coding import Code
+    from gen.pixeltransforms import fl, lut_item, rwvm_item
+    f_win = getattr(hp, '_select_voi_window_center_width', None)
+    f_lut = getattr(hp, '_select_voi_lut', None)
+    f_rw = getattr(hp, '_select_real_world_value_map', None)
+    if not (f_win and f_lut and f_rw):
+        ctx.note('L2 selector helpers not found; skipped (selection is still covered through get_frame)')
+    full = ctx.tier == 'thorough'
+    # windows: all list lengths 1..4, all integer selectors -6..5, explanations present / absent / partial
+    for n in range(1, 5):
+        for with_expl in (None, 'all', 'dup'):
+            r = ctx.rng('selwin', n)
+            cs = [Fraction(r.randint(-400, 400), 4) for _ in range(n)]
+            ws = [Fraction(r.randint(5, 400), 4) for _ in range(n)]
+            expl = None
+            if with_expl == 'all':
+                expl = EXPL[:n]
+            elif with_expl == 'dup':
+                expl = [EXPL[0]] * n
+            ds = Dataset()
+            ds.WindowCenter = [fl(c) for c in cs] if n > 1 else fl(cs[0])
+            ds.WindowWidth = [fl(w) for w in ws] if n > 1 else fl(ws[0])
+            if expl:
+                ds.WindowCenterWidthExplanation = expl if n > 1 else expl[0]
+            tr = call(hd.VOILUTTransformation, [fl(c) for c in cs] if n > 1 else fl(cs[0]), [fl(w) for w in ws] if n > 1 else fl(ws[0]),
+                      (expl if n > 1 else expl[0]) if expl else None, 'LINEAR_EXACT')
+            sels = list(range(-n - 2, n + 2)) + EXPL[:n + 1] + ['NOPE']
+            for sel in sels:
+                want = select_window({'c': cs, 'w': ws, 'expl': expl}, sel)
+                case = {'stream': 'selwin', 'n': n, 'expl': expl, 'sel': sel}
+                ctx.case(nontrivial_key=('selwin', n, with_expl, sel) if want else None, selector='window:' + ('str' if isinstance(sel, str) else 'int'),
+                         selected=want is not None)
+                if f_win:
+                    got = call(f_win, ds, sel)
+                    impl = 'err' if got[0] != 'ok' or got[1] is None else [fs(Fraction(got[1][0])), fs(Fraction(got[1][1]))]
+                    reqs.append(('selectWindow', {'centers': [fs(c) for c in cs], 'widths': [fs(w) for w in ws], 'expl': expl, 'sel': sel}))
+                    pending.append((dict(case, layer='L2', what='_select_voi_window_center_width'), impl))
+                # L0: through the standalone transformation (window LINEAR_EXACT on a probe array)
+                if tr[0] == 'ok':
+                    probe = np.array([[-50, 0, 30, 77, 120]], dtype=np.int16)
+                    got = call(tr[1].apply, probe, (0.0, 1.0), sel)
+                    if want is None:
+                        if got[0] == 'ok':
+                            ctx.fail(case, {'why': 'selector names no alternative but a result was returned'}, site='VOILUTTransformation.apply/selector')
+                    else:
+                        ref = [float(window_value('LINEAR_EXACT', want[0], want[1], Fraction(int(x)), Fraction(0), Fraction(1))) for x in probe.reshape(-1)]
+                        if got[0] != 'ok' or np.abs(got[1].reshape(-1) - np.array(ref)).max() > 1e-12:
+                            ctx.fail(case, {'why': 'selected window is not the stated alternative', 'got': str(got[1:])[:200], 'want': ref},
+                                     site='VOILUTTransformation.apply/selector')
+                    reqs.append(('selectWindow', {'centers': [fs(c) for c in cs], 'widths': [fs(w) for w in ws], 'expl': expl, 'sel': sel}))
+                    pending.append((dict(case, what='window selection through VOILUTTransformation.apply (ok-vs-refused)'),
+                                    'err' if got[0] != 'ok' else [fs(want[0]), fs(want[1])] if want else 'ok?'))
+    ctx.exhaustive.append('window selectors: 1..4 alternatives x explanations (none / distinct / duplicated) x int selectors -n-2..n+1 and names')
+    # VOI LUT sequences and real-world value maps
+    for n in range(1, 4):
+        for variant in range(3):
+            r = ctx.rng('sellut', n * 10 + variant)
+            expl = [r.choice(EXPL + [None]) for _ in range(n)]
+            ds = Dataset()
+            ds.VOILUTSequence = Sequence([lut_item(10 * k, 8, [k, k + 1, k + 2], expl=expl[k]) for k in range(n)])
+            labels = r.sample(['A', 'B', 'C', 'D'], n) if variant < 2 else ['A'] * n
+            units = [r.choice(UNITS) for _ in range(n)]
+            seq = Sequence([rwvm_item({'label': labels[k], 'unit': units[k], 'first': 0, 'last': 9, 'slope': str(k + 1), 'intercept': '0'})
+                            for k in range(n)])
+            for sel in list(range(-n - 2, n + 2)) + EXPL + ['NOPE']:
+                want = select_lut([{'expl': e} for e in expl], sel)
+                wi = None if want is None else ([{'expl': e} for e in expl].index(want) if isinstance(sel, str) else sel % n)
+                ctx.case(nontrivial_key=('sellut', n, variant, sel) if want else None, selector='lut:' + ('str' if isinstance(sel, str) else 'int'),
+                         selected=want is not None)
+                if f_lut:
+                    got = call(f_lut, ds, sel)
+                    impl = 'err' if got[0] != 'ok' or got[1] is None else int(got[1].LUTDescriptor[1]) // 10
+                    reqs.append(('selectLut', {'expl': expl, 'n': n, 'sel': sel}))
+                    pending.append(({'stream': 'sellut', 'n': n, 'expl': expl, 'sel': sel, 'layer': 'L2', 'what': '_select_voi_lut'}, impl))
+                    if (wi is None) != (impl == 'err') or (wi is not None and wi != impl):
+                        ctx.fail({'stream': 'sellut', 'n': n, 'expl': expl, 'sel': sel}, {'why': 'VOI LUT selection', 'got': impl, 'want': wi},
+                                 site='_select_voi_lut')
+            for sel in list(range(-n - 2, n + 2)) + ['A', 'B', 'C', 'D', 'Z'] + [u for u in UNITS] + [['kg', 'UCUM', 'kg']]:
+                maps = [{'label': labels[k], 'unit': units[k], 'k': k} for k in range(n)]
+                want = select_rwvm(maps, sel if not isinstance(sel, list) else sel)
+                ctx.case(nontrivial_key=('selrw', n, variant, str(sel)) if want else None,
+                         selector='rwvm:' + ('unit' if isinstance(sel, list) else 'str' if isinstance(sel, str) else 'int'), selected=want is not None)
+                if f_rw:
+                    s2 = Code(sel[0], sel[1], sel[2]) if isinstance(sel, list) else sel
+                    got = call(f_rw, seq, s2)
+                    impl = 'err' if got[0] != 'ok' or got[1] is None else int(got[1].RealWorldValueSlope) - 1
+                    reqs.append(('selectRwvm', {'labels': labels, 'units': [u[:2] for u in units], 'sel': sel[:2] if isinstance(sel, list) else sel}))
+                    pending.append(({'stream': 'selrw', 'n': n, 'labels': labels, 'units': units, 'sel': sel, 'layer': 'L2',
+                                     'what': '_select_real_world_value_map'}, impl))
+                    wk = None if want is None else want['k']
+                    if (wk is None) != (impl == 'err') or (wk is not None and wk != impl):
+                        ctx.fail({'stream': 'selrw', 'n': n, 'labels': labels, 'units': units, 'sel': sel},
+                                 {'why': 'real-world value map selection', 'got': impl, 'want': wk}, site='_select_real_world_value_map')
+
+
+# ---------------------------------------------------------------------------- placement
+def stream_placement(ctx, reqs, pending):
+    """every subset of {image, shared, per-frame} x {rescale, window, rwvm}: which parameters a frame gets;
+    get_frames (transform reuse via applies_to_all_frames) against get_frame"""
+    vals = {'image': 1, 'shared': 2, 'perframe': None}
+    n = 3
+    frames = [[[10 * f + k for k in range(3)]] for f in range(n)]
+    for kind in ('rescale', 'window', 'rwvm'):
+        for subset in itertools.product((False, True), repeat=3):
+            places = [p for p, on in zip(('image', 'shared', 'perframe'), subset) if on]
+            T = {}
+            ent = []
+            for p_ in places:
+                ids = [vals[p_]] if p_ != 'perframe' else [3 + f for f in range(n)]
+                if kind == 'rescale':
+                    ent.append({'place': p_, 'vals': [[str(i), str(100 * i)] for i in ids]})
+                elif kind == 'window':
+                    ent.append({'place': p_, 'vals': [{'c': [str(20 * i)], 'w': [str(64 * i)], 'fn': 'LINEAR_EXACT'} for i in ids]})
+                else:
+                    ent.append({'place': p_, 'vals': [[{'label': 'A', 'unit': UNITS[0], 'first': 0, 'last': 255, 'slope': str(i), 'intercept': str(100 * i)}]
+                                                      for i in ids]})
+            if ent:
+                T[kind] = ent
+            P = {'bits': 8, 'photometric': 'MONOCHROME2', 'frames': frames, 'T': T}
+            st = call(build, P)
+            if st[0] != 'ok':
+                ctx.note('placement image could not be built: ' + st[2])
+                continue
+            im = st[1][0]
+            flags = {'rw': None, 'mod': None, 'voi': None if kind == 'window' else False, 'pal': None, 'icc': None, 'pres': True}
+            kw = flag_kwargs(flags)
+            singles = []
+            for f in range(n):
+                res = call(im.get_frame, f + 1, **kw)
+                singles.append(res)
+                case = {'stream': 'place', 'kind': kind, 'places': places, 'frame': f}
+                check_call(ctx, case, P, f, flags, {}, res, 'placement/' + kind, hist=False)
+                want_id = (3 + f) if subset[2] else 2 if subset[1] else 1 if subset[0] else None
+                ctx.case(nontrivial_key=('place', kind, subset, f), placement_kind=kind, placement_set='+'.join(places) or 'none')
+                reqs.append(('findPlaced', {'image': 1 if subset[0] else None, 'shared': 2 if subset[1] else None,
+                                            'perFrame': [3 + g for g in range(n)] if subset[2] else [None] * n, 'f': f}))
+                # which parameter set reproduces the implementation's frame (L0 observation)
+                obs = 'err'
+                if res[0] == 'ok':
+                    for cand in [None, 1, 2] + [3 + g for g in range(n)]:
+                        Tc = {}
+                        if cand is not None:
+                            Tc[kind] = [{'place': 'image', 'vals': [next(v for e in ent for i, v in zip(([vals[e['place']]] if e['place'] != 'perframe'
+                                                                                                else [3 + g for g in range(n)]), e['vals']) if i == cand)]}] \
+                                if any(cand in ([vals[e['place']]] if e['place'] != 'perframe' else [3 + g for g in range(n)]) for e in ent) else None
+                            if Tc[kind] is None:
+                                continue
+                        rf = ref_frame(dict(P, T=Tc), f, flags, {})
+                        if rf[0] == 'ok' and compare_values(res[1], rf[1], rf[2], 'float64') is None:
+                            obs = 'none' if cand is None else [cand, cand in (1, 2)]
+                            break
+                pending.append((dict(case, what='which placement is in force'), 'err' if obs == 'none' else obs))
+            batch = call(im.get_frames, **kw)
+            if all(s[0] == 'ok' for s in singles):
+                if batch[0] != 'ok' or not np.array_equal(batch[1], np.stack([s[1] for s in singles])):
+                    ctx.fail({'stream': 'place', 'kind': kind, 'places': places, 'frame': 'all'},
+                             {'why': 'get_frames differs from per-frame get_frame', 'got': str(batch[1:])[:300]}, site='placement/get_frames')
+    ctx.exhaustive.append('placement: 3 kinds x 8 subsets of {image, shared, per-frame} x 3 frames')
